@@ -151,6 +151,12 @@ impl PackageJsonParser {
                 continue;
             }
 
+            // A string shorter than its two quotes is still being typed (the parser
+            // recovers `"` plus a missing closing quote): there is no version text yet
+            if value_node.end_byte() - value_node.start_byte() < 2 {
+                continue;
+            }
+
             let key_name = self.get_string_value(key_node, content);
             let raw_version = self.get_string_value(value_node, content);
 
